@@ -28,6 +28,11 @@ func (pass *HintObject) processObject(_ *Visitor, _ *ast.Schema, object ast.Obje
 		return object, nil
 	}
 
+	// types coming from a YAML configuration (add_object, ...) may not have a hints map yet
+	if object.Type.Hints == nil {
+		object.Type.Hints = make(ast.JenniesHints, len(pass.Hints))
+	}
+
 	hintsTrail := make([]string, 0, len(pass.Hints))
 	for hint, val := range pass.Hints {
 		object.Type.Hints[hint] = val
